@@ -6,6 +6,7 @@ import (
 	"errors"
 	"fmt"
 	"net/http"
+	"strings"
 	"time"
 
 	connect "github.com/bufbuild/connect-go"
@@ -30,7 +31,8 @@ func sameList(a, b []string) bool {
 }
 
 func c11(run *ev.Run) int {
-	run.SetRule("cases = random multimaps (1..10 keys, 1..4 printable-ASCII values, -Bin keys with base64 of random bytes, some keys shared between headers, trailers and error metadata) as request headers, response headers, response trailers and error metadata x 3 protocols x 4 kinds x {success with >=1 message, success with 0 messages, error before first message, error after messages} x HTTP/1.1 and HTTP/2 over real sockets; plus binary-header helper round trips over all byte strings up to length 2 (3 thorough) in padded and unpadded form; distinct by (config, scenario, key-overlap class)")
+	run.SetRule("cases = random multimaps (1..10 X-... keys plus up to 2 ordinary names with varied first letters such as Trace-Id, Tenant, Trailer-Extra, T, 1..4 printable-ASCII values, -Bin keys with base64 of random bytes, some keys shared between headers, trailers and error metadata) as request headers, response headers, response trailers and error metadata x 3 protocols x 4 kinds x {success with >=1 message, success with 0 messages, error before first message, error after messages} x HTTP/1.1 and HTTP/2 over real sockets; plus binary-header helper round trips over all byte strings up to length 2 (3 thorough) in padded and unpadded form; distinct by (config, scenario, key-overlap class)")
+	run.Assume("names starting with \"Trailer-\" are used for trailers only: the unary Connect protocol defines every response header with that prefix to be a trailer, so a header of that name cannot be told apart from one by design")
 	run.Assume("header names are valid and outside protocol-reserved prefixes; values are printable ASCII without leading/trailing blanks")
 	srv := svc.NewServer()
 	defer srv.Close()
@@ -90,6 +92,26 @@ func c11Case(run *ev.Run, srv *svc.Server, cs *svc.ClientSet, kind svc.Kind, pro
 	respH, _ := gen.Meta(r, "H", nk(), refcodec.B64Encode)
 	respT, _ := gen.Meta(r, "T", nk(), refcodec.B64Encode)
 	errM, _ := gen.Meta(r, "E", nk(), refcodec.B64Encode)
+	// ordinary-looking names with varied first letters next to the X-... ones
+	// (prefix handling such as Connect's "Trailer-" must strip exactly the
+	// prefix, whatever the name behind it starts with)
+	natural := []string{"Trace-Id", "Tenant", "Trailer-Extra", "Timing-Bin", "Region", "Audit-Ref", "Idem-Key", "Locale-X", "Entity-Ref", "Rail", "Tr", "T", "Trailer-Trailer-X", "Retry-Hint-Bin"}
+	for hi, h := range []http.Header{reqH, respH, respT, errM} {
+		for n := r.Intn(3); n > 0; n-- {
+			k := natural[r.Intn(len(natural))]
+			if hi != 2 && strings.HasPrefix(k, "Trailer-") {
+				// only as a trailer: unary Connect carries trailers as headers
+				// prefixed "Trailer-", so a header (or error metadata) with such a
+				// name is a trailer by the protocol's own definition
+				continue
+			}
+			v := fmt.Sprintf("nat-%d", r.Intn(1000))
+			if strings.HasSuffix(k, "-Bin") {
+				v = refcodec.B64Encode([]byte(v))
+			}
+			h[k] = []string{v}
+		}
+	}
 	overlap := "disjoint"
 	switch r.Intn(4) {
 	case 0: // a key present in headers and trailers
